@@ -9,6 +9,7 @@ import (
 	idp "berty.tech/go-ipfs-log/identityprovider"
 	"berty.tech/go-ipfs-log/iface"
 	"berty.tech/go-ipfs-log/internal/vx"
+	"berty.tech/go-ipfs-log/io/cbor"
 	"github.com/ipfs/go-cid"
 )
 
@@ -32,11 +33,12 @@ type histCfg struct {
 	deny     bool // replica 0 refuses entries signed by the last writer
 	pcN      int  // number of pointer-count alternatives tried at each append (1 = default only)
 	emptyAt  int  // index of the append that carries an empty payload (-1 = none)
+	realIO   bool // the real default CBOR codec over the store's DAG service and real (keystore) identities
 }
 
 func histParams() histCfg {
 	return histCfg{R: vx.Param("R", 2), K: vx.Param("K", 3), W: vx.Param("W", 2), sort: vx.Param("SORT", sortHash),
-		symClock: vx.Param("SYMCLOCK", 0) == 1, reload: vx.Param("RELOAD", 0) == 1, deny: vx.Param("DENY", 0) == 1, pcN: vx.Param("PCN", 1), emptyAt: vx.Param("EMPTYAT", -1)}
+		symClock: vx.Param("SYMCLOCK", 0) == 1, reload: vx.Param("RELOAD", 0) == 1, deny: vx.Param("DENY", 0) == 1, pcN: vx.Param("PCN", 1), emptyAt: vx.Param("EMPTYAT", -1), realIO: vx.Param("REALIO", 0) == 1}
 }
 
 var pcTable = []int{0, 2, 4, 3, 8, -1, 16, 1}
@@ -59,10 +61,25 @@ func (h *hist) sortFn() iface.EntrySortFn { return pickSort(h.cfg.sort) }
 
 func (h *hist) writerOf(r int) *idp.Identity { return h.ids[r%h.cfg.W] }
 
+// io returns the codec the history's logs use.
+func (h *hist) io() iface.IO {
+	if h.cfg.realIO {
+		c, err := cbor.IO(&entry.Entry{}, &entry.LamportClock{})
+		if err != nil {
+			panic(err)
+		}
+		return c
+	}
+	return &atomIO{api: h.api}
+}
+
 func newHist(cfg histCfg) *hist {
 	h := &hist{cfg: cfg, api: newMemAPI(), ids: mockIdentities(cfg.W)}
+	if cfg.realIO {
+		h.ids, _ = realIdentities([]string{"userA", "userB", "userC"}[:cfg.W]...)
+	}
 	for r := 0; r < cfg.R; r++ {
-		o := &ipfslog.LogOptions{SortFn: h.sortFn()}
+		o := &ipfslog.LogOptions{SortFn: h.sortFn(), IO: h.io()}
 		if cfg.deny && r == 0 && cfg.W > 1 {
 			o.AccessController = &denyWriter{id: h.ids[cfg.W-1].ID}
 		}
@@ -130,7 +147,7 @@ func (h *hist) run(pre func(h *hist), post func(h *hist)) {
 			_, h.err = h.logs[h.dst].Join(h.logs[h.src], -1)
 		case opReload:
 			old := h.logs[h.dst]
-			h.logs[h.dst] = newLogOpt(h.api, h.writerOf(h.dst), &ipfslog.LogOptions{SortFn: h.sortFn(), Entries: old.GetEntries(), AccessController: h.acs[h.dst]})
+			h.logs[h.dst] = newLogOpt(h.api, h.writerOf(h.dst), &ipfslog.LogOptions{SortFn: h.sortFn(), IO: h.io(), Entries: old.GetEntries(), AccessController: h.acs[h.dst]})
 		}
 		// observations for native cross-validation of sampled paths
 		vx.Observe("kind", h.kind)
